@@ -12,13 +12,16 @@ func init() {
 		}
 		site := &HarnessCfg{Name: "VerifC15_LoadSite", Pkg: repoMod + "/pkg/diff", Solver: "z3", EngineReplay: true,
 			Params: map[string]int64{"entries": 1, "maxlen": params["maxlen"]}, Unwind: 64}
+		scan := &HarnessCfg{Name: "VerifC15_ScanLoadSite", Pkg: repoMod + "/internal/cli", Solver: "z3", EngineReplay: true,
+			Params: map[string]int64{"maxlen": params["maxlen"]}, Unwind: 64}
 		c.Assumptions = append(c.Assumptions,
 			"environment entries are non-empty, NUL-free, 7-bit ASCII (case mapping modelled for ASCII only; non-ASCII keys such as the long-s spelling are outside the claim)",
 			"an entry defines key K iff it starts with K followed by '='; effective value = value of the last defining entry, checked under exact-case and ASCII-case-insensitive key comparison",
 			"os.Environ is a stub returning the symbolic entries (stable across the two calls GetHardenedEnv makes)",
 			"bounds: entries and maxlen as listed in coverage.harnesses[].params; larger environments are outside the claim",
 			"call-site clause (VerifC15_LoadSite): packages.Load is replaced by a recorder of Config.Env that always fails; every call issued by diff.loadPackagesFromSource must carry exactly GetHardenedEnv()'s result (1 ambient entry, fixed file name /a/x.go); counterexamples are confirmed by concrete re-execution of the SSA because the real loader cannot be observed natively",
-			"the second call site, cli.loadPackagesWithDeps, hands its Config to an injected PackageLoader and is not re-checked here")
-		c.runModeT([]string{"pkg/diff"}, []*HarnessCfg{cfg, site})
+			"second call site (VerifC15_ScanLoadSite): cli.loadPackagesWithDeps with a recording PackageLoader that always fails, os.Stat succeeding with a solver-chosen IsDir answer, solver-chosen transitive flag, fixed target /a/x.go, 1 ambient entry; same assertion; engine replay",
+			"that RunScan/RunIndex inject RealPackageLoader (a one-line wrapper of packages.Load) is not re-checked")
+		c.runModeT([]string{"pkg/diff", "internal/cli"}, []*HarnessCfg{cfg, site, scan})
 	}
 }
